@@ -23,15 +23,15 @@ FOREIGN = ["NullableStringColumn", "StringColumn", "IntegerColumn", "NullableInt
            "Canonical", "UUIDColumn", "NullableDnaString", "MafColumnRecord", "TranscriptStrand", "SequenceOfIntegers"]
 
 
-def conforming_cols(rng):
+def conforming_cols(rng, ann=ANN):
     """Column specs of a conforming record: parsed values of a valid line, re-offered as API columns."""
     from maflib.record import MafRecord
     from maflib.validation import ValidationStringency as VS
-    sch = impl.scheme_by_annotation(ANN)
-    rec = SC.typed_record(rng, rng.choice(["T1", "T2"]), rng.choice(["N1", None]), rng.choice(["1", "X"]), rng.choice([5, 50]), 60)
+    sch = impl.scheme_by_annotation(ann)
+    rec = SC.typed_record(rng, rng.choice(["T1", "T2"]), rng.choice(["N1", None]), rng.choice(["1", "X"]), rng.choice([5, 50]), 60, ann=ann)
     cols = []
     for k, name in enumerate(sch.column_names()):
-        cols.append({"scheme": ANN, "col": name, "key": name, "value": enc_val(rec[name].value), "index": k})
+        cols.append({"scheme": ann, "col": name, "key": name, "value": enc_val(rec[name].value), "index": k})
     return cols, str(rec)
 
 
@@ -93,13 +93,16 @@ def strict_accepts(line, ann=ANN):
         return False
 
 
-def make_request(sort, specs):
+def make_request(sort, specs, ann=ANN):
     """The writer.run request of one session: a Strict writer (sorting or direct) offered the records `specs`, then closed."""
-    header = ["#version gdc-1.0.0"] + (["#sort.order Coordinate"] if sort else [])
+    header = ["#version gdc-1.0.0"] + (["#annotation.spec " + ann] if ann != ANN else []) + (["#sort.order Coordinate"] if sort else [])
     ops = [{"k": "write", "rec": spec} for spec in specs] + [{"k": "close"}]
     texts = [p for o in ops if o["k"] == "write" for c in o["rec"]["cols"] if c["value"].get("t") == "str" for p in [c["value"]["v"]]]
-    return {"op": "writer.run", "header_lines": header, "mode": "Strict", "assume_sorted": not sort, "ops": ops,
-            "floats": float_table(texts + ["1.5"])}
+    r = {"op": "writer.run", "header_lines": header, "mode": "Strict", "assume_sorted": not sort, "ops": ops,
+         "floats": float_table(texts + ["1.5"])}
+    if ann != ANN:
+        r["ann"] = ann
+    return r
 
 
 def pack_session(r, kinds, sort):
@@ -111,16 +114,19 @@ def pack_session(r, kinds, sort):
             continue
         cols = []
         for pos, c in enumerate(o["rec"]["cols"]):
-            plain = c.get("scheme") == ANN and c.get("col") == c["key"] and c.get("index") == pos and set(c) == {"scheme", "col", "key", "value", "index"}
+            plain = c.get("scheme") == r.get("ann", ANN) and c.get("col") == c["key"] and c.get("index") == pos and set(c) == {"scheme", "col", "key", "value", "index"}
             cols.append([c["key"], c["value"]] if plain else c)
         recs.append({"cols": cols, "mut": o["rec"].get("mut", [])})
-    return {"sorting": sort, "deviations": list(kinds), "records": recs}
+    sess = {"sorting": sort, "deviations": list(kinds), "records": recs}
+    if r.get("ann", ANN) != ANN:
+        sess["ann"] = r["ann"]
+    return sess
 
 
 def unpack_session(sess):
     specs = []
     for rec in sess["records"]:
-        cols = [{"scheme": ANN, "col": c[0], "key": c[0], "value": c[1], "index": pos} if isinstance(c, list) else dict(c)
+        cols = [{"scheme": sess.get("ann", ANN), "col": c[0], "key": c[0], "value": c[1], "index": pos} if isinstance(c, list) else dict(c)
                 for pos, c in enumerate(rec["cols"])]
         specs.append({"cols": cols, "mut": [dict(m) for m in rec.get("mut", [])]})
     return bool(sess["sorting"]), list(sess["deviations"]), specs
@@ -133,7 +139,8 @@ def eval_session(r, kinds, sort):
     i = impl.run(r)
     fails = []
     sess = pack_session(r, kinds, sort)
-    ncols = len(impl.scheme_by_annotation(ANN).column_names())
+    ann = r.get("ann", ANN)
+    ncols = len(impl.scheme_by_annotation(ann).column_names())
     if "init_exc" in i:
         fails.append({"what": "Strict writer could not be opened on a valid header", "kind": "init", "got": i["init_exc"], "session": sess})
         return i, fails, None
@@ -155,7 +162,7 @@ def eval_session(r, kinds, sort):
                 if not sort:
                     new = st["out"][len(prev):]
                     line = new[:-1] if new.endswith("\n") else new
-                    if new.count("\n") != 1 or len(line.split("\t")) != ncols or not strict_accepts(line):
+                    if new.count("\n") != 1 or len(line.split("\t")) != ncols or not strict_accepts(line, ann):
                         fails.append(dict(where, what="the Strict writer emitted a line that a Strict reader does not accept",
                                           kind="emitted-nonconforming", line=line[:200], step=k, session=sess))
             steps.append((k, where, st["exc"] is not None))
@@ -454,6 +461,59 @@ def history_cases(ctx, out):
                         "excs": [s["exc"] for s in i["steps"]]})
 
 
+MORE_VALUES = [
+    {"t": "int", "v": "1"}, {"t": "int", "v": "-1"}, {"t": "int", "v": "2"}, {"t": "float", "v": "0.0"}, {"t": "float", "v": "-2.5e-07"},
+    {"t": "float", "v": "1e+22"}, {"t": "float", "v": "inf"}, {"t": "str", "v": "-"}, {"t": "str", "v": "ACGTN"}, {"t": "str", "v": "Yes"}, {"t": "str", "v": "1"},
+    {"t": "str", "v": "1.5"}, {"t": "str", "v": " "}, {"t": "list", "v": [{"t": "int", "v": "3"}]}, {"t": "list", "v": [{"t": "bool", "v": False}]},
+    {"t": "list", "v": [{"t": "float", "v": "1.5"}]}, {"t": "list", "v": [{"t": "none"}]}, {"t": "tuple", "v": [{"t": "int", "v": "3"}, {"t": "int", "v": "4"}]},
+    {"t": "list", "v": [{"t": "enum", "c": "SequencerEnum", "m": "ABIThirtySevenThirty"}]}, {"t": "enum", "c": "NullableYesOrNoEnum", "m": "Null"},
+    {"t": "enum", "c": "NullableYesOrNoEnum", "m": "Yes"}, {"t": "enum", "c": "NullableYOrNEnum", "m": "Yes"}, {"t": "enum", "c": "PickEnum", "m": "Yes"},
+    {"t": "uuid", "v": "0"},
+]
+
+
+def scheme_value_cases(ctx, out):
+    """Every column class of every built-in layout (one representative column per distinct MRO) x every kind of API value,
+    type-appropriate or not: a conforming record with that one column rebuilt as `scheme_class(name, value, index)` is
+    offered to a Strict writer of that scheme, and the session oracle applies (refusal = format exception and no bytes;
+    an emitted line is accepted by a Strict reader of the scheme)."""
+    rng = ctx.rng("c06-values")
+    vals = ODD_VALUES + MORE_VALUES
+    sigs = colcases.class_signatures()
+    combos = []
+    for sig in sorted(sigs):
+        ann, name = sorted(sigs[sig])[0]
+        for v in vals:
+            combos.append((ann, name, v))
+    base = {}
+    reqs, meta = [], []
+    for ann, name, v in combos:
+        if ann not in base:
+            base[ann] = conforming_cols(rng, ann)[0]
+        cols = [dict(c) for c in base[ann]]
+        k = next(j for j, c in enumerate(cols) if c["key"] == name)
+        cols[k]["value"] = v
+        reqs.append(make_request(False, [{"cols": cols, "mut": []}], ann))
+        meta.append((ann, name, v))
+    # the model on a sample (the requests are large), the implementation and the oracle on all of them
+    sample = set(rng.sample(range(len(reqs)), min(len(reqs), ctx.scale(150, 1500))))
+    idx = sorted(sample)
+    mo = dict(zip(idx, ctx.driver.run([reqs[j] for j in idx])))
+    for j, (r, (ann, name, v)) in enumerate(zip(reqs, meta)):
+        out.evaluations += 1
+        i, fails, steps = eval_session(r, ["value"], False)
+        out.failures += fails
+        refused = bool(steps and steps[0][2])
+        out.distribution["scheme-value:" + ("refused" if refused else "accepted")] += 1
+        out.nontrivial.add(("scheme-value", ann, name, json.dumps(v, sort_keys=True)))
+        if j in mo:
+            m = mo[j]
+            if has_unmodelled(m):
+                out.unmodelled += 1
+            elif m != i:
+                out.disagreements.append(model_differs(r, ["value"], False, m, i))
+
+
 def run(ctx):
     out = Outcome()
     out.rule = ("Strict writers (direct and sorting) under gdc-1.0.0 offered conforming records interleaved with records deviating in one way: a value of a wrong Python type / out of range / "
@@ -494,6 +554,7 @@ def run(ctx):
         if len(out.samples) < 3 and any(kd != "conforming" for kd in kinds):
             out.sample({"sorting": sort, "deviations": kinds, "excs": [s["exc"] for s in i["steps"]]})
     history_cases(ctx, out)
+    scheme_value_cases(ctx, out)
     return out
 
 
@@ -506,7 +567,7 @@ def replay_case(ctx, failure):
     if not isinstance(sess, dict) or any(k not in sess for k in ("sorting", "deviations", "records")):
         return None          # older replay files hold only a summary of the deviating record
     sort, kinds, specs = unpack_session(sess)
-    r = make_request(sort, specs)
+    r = make_request(sort, specs, sess.get("ann", ANN))
     print("Strict %s writer, header %s" % ("sorting" if sort else "direct", r["header_lines"]))
     for k, (spec, kd) in enumerate(zip(specs, kinds)):
         sm = summarize(spec, kd)
